@@ -68,12 +68,15 @@ structure StoreOK (st : Store) : Prop where
   desc : Desc st.msgs
   ent : ∀ p ∈ st.msgs, p.2.seq = p.1 ∧ 1 ≤ p.1 ∧ p.1 < st.sender ∧ MsgOK p.2
 
+/-- a gap fill with header tag 369 = `l` (`generateSequenceReset` fills the header in reply to the ResendRequest) -/
+def gapFillL (b e : Int) (l : Option Int) : OutMsg := { gapFill b e with last := l }
+
 /-- what an engine with store `st` can have put on the wire (or still holds in its send queue) -/
 inductive Wire (st : Store) : OutMsg → Prop
   | stored {m : OutMsg} (h : (m.seq, m) ∈ st.msgs) : Wire st m
   | resent {m : OutMsg} (h : (m.seq, m) ∈ st.msgs) (happ : isAdminKind m.kind = false) : Wire st (resent m)
-  | gap (b e : Int) (hbe : b < e) (he : e ≤ st.sender) (hb : -9223372036854775808 ≤ b)
-      (hadm : ∀ p ∈ st.msgs, b ≤ p.1 → p.1 < e → isAdminKind p.2.kind = true) : Wire st (gapFill b e)
+  | gap (b e : Int) (l : Option Int) (hbe : b < e) (he : e ≤ st.sender) (hb : -9223372036854775808 ≤ b)
+      (hadm : ∀ p ∈ st.msgs, b ≤ p.1 → p.1 < e → isAdminKind p.2.kind = true) : Wire st (gapFillL b e l)
 
 /-- `st'` is `st` with newer messages filed on top (all administrative when `adm`) -/
 def Grow (adm : Bool) (st st' : Store) : Prop :=
@@ -101,8 +104,8 @@ theorem Wire.mono {adm : Bool} {st st' : Store} (hg : Grow adm st st') {m : OutM
   cases h with
   | stored h => exact .stored (by rw [he]; exact List.mem_append_right _ h)
   | resent h happ => exact .resent (by rw [he]; exact List.mem_append_right _ h) happ
-  | gap b e hbe hle hb hadm =>
-    refine .gap b e hbe (by omega) hb ?_
+  | gap b e l hbe hle hb hadm =>
+    refine .gap b e l hbe (by omega) hb ?_
     intro p hp h1 h2
     rw [he] at hp
     rcases List.mem_append.1 hp with hp | hp
@@ -175,10 +178,10 @@ theorem wire_facts {P : Store} (hP : StoreOK P) (hb : P.sender ≤ maxSeq) {m : 
     · exact ⟨hv.1, by simp, by simp⟩
     · exact ⟨by simp, by simp, by simp⟩
     · exact ⟨by simp, by simp, by simp⟩
-  | gap b e hbe he hb' hadm =>
+  | gap b e l hbe he hb' hadm =>
     refine ⟨(show "4" ≠ "" by decide), ?_, (show inInt64 b by unfold inInt64; unfold maxSeq at hb; omega)⟩
     intro p hp
-    simp only [gapFill, List.mem_cons, List.not_mem_nil, or_false] at hp
+    simp only [gapFillL, gapFill, List.mem_cons, List.not_mem_nil, or_false] at hp
     rcases hp with rfl | rfl | rfl | rfl
     · exact ⟨toString_int_ne_empty _, by simp, by simp⟩
     · exact ⟨by simp, by simp, by simp⟩
